@@ -1,6 +1,7 @@
 package vc
 
 import (
+	"sort"
 	"fmt"
 	"go/types"
 	"strings"
@@ -152,6 +153,18 @@ func InstallJSONDecodeLibrary(w *World) {
 			e.assume(e.curReach, fmt.Sprintf("(forall ((x Int)) (! (=> (not (= x %s)) (and (= (select %s x) (select %s x)) (= (select %s x) (select %s x)))) :pattern ((select %s x)) :pattern ((select %s x))))", m, newH, oldH, newV, oldV, newH, newV))
 			e.assume(e.curReach, implies(and(okT, not(sx("docNull", d)), not(eq(m, "0"))), fmt.Sprintf("(forall ((k Str)) (! (and (= (select (select %s %s) k) (or (select (select %s %s) k) ((_ is d_some) (select (docObj %s) k)))) (=> ((_ is d_some) (select (docObj %s) k)) (and (> (sl_base (select (select %s %s) k)) 0) (= (rawdoc (select (select %s %s) k)) (d_val (select (docObj %s) k)))))) :pattern ((select (select %s %s) k)) :pattern ((select (select %s %s) k))))", newH, m, oldH, m, d, d, newV, m, newV, m, d, newH, m, newV, m)))
 			e.assume(e.curReach, implies(and(okT, sx("docNull", d)), and(eq(sx("select", newH, m), sx("select", oldH, m)), eq(sx("select", newV, m), sx("select", oldV, m)))))
+			return true
+		}
+		if key, fieldT, ok := singleTaggedStringField(T); ok {
+			// struct{ Key string `json:"<key>"` }: the discriminator probe
+			e.D.UF("docStrMember", []string{"Doc", "Str"}, "Str")
+			e.assume(e.curReach, eq(okT, not(sx(e.rawMapErrFn(), d))))
+			nv := e.newSym("probe", "Str")
+			e.assume(e.curReach, implies(okT, eq(nv, sx("docStrMember", d, e.D.Lit(key)))))
+			st := T.Underlying().(*types.Struct)
+			_ = st
+			e.store(e.cur, "("+e.D.FieldAddrFn(T, 0)+" "+p+")", fieldT, nv)
+			e.Assumed["json.Unmarshal into struct{Key string `json:\"k\"`}: fails exactly on non-null non-object documents; Key is the string value of member k (\"\" when absent or not a string is not distinguished: such documents are treated as failing the strict clause only)"] = true
 			return true
 		}
 		errFn, valFn := e.decFns(T)
@@ -662,4 +675,145 @@ func containsRaw(t types.Type) bool {
 		t = in
 	}
 	return false
+}
+
+// singleTaggedStringField: struct{ X string `json:"key"` }.
+func singleTaggedStringField(t types.Type) (key string, ft types.Type, ok bool) {
+	st, isS := t.Underlying().(*types.Struct)
+	if !isS || st.NumFields() != 1 {
+		return "", nil, false
+	}
+	b, isB := st.Field(0).Type().Underlying().(*types.Basic)
+	if !isB || b.Kind() != types.String {
+		return "", nil, false
+	}
+	tag := reflectTag(st.Tag(0), "json")
+	if tag == "" {
+		return "", nil, false
+	}
+	return tag, st.Field(0).Type(), true
+}
+
+func reflectTag(tag, key string) string {
+	// `json:"name,omitempty"`
+	i := strings.Index(tag, key+":\"")
+	if i < 0 {
+		return ""
+	}
+	rest := tag[i+len(key)+2:]
+	j := strings.Index(rest, "\"")
+	if j < 0 {
+		return ""
+	}
+	v := rest[:j]
+	if k := strings.Index(v, ","); k >= 0 {
+		v = v[:k]
+	}
+	return v
+}
+
+// ---------------------------------------------------------------- oneOf components (decoding)
+//
+//	emitted func (*O).UnmarshalJSON(bs []byte) error            [oneOf schemas]
+//	  requires *c == zero(O)
+//	  with a discriminator k: let d = docStrMember(doc, k); the table maps every explicit mapping value and every
+//	  member schema name to its variant
+//	    ensures d == value(V) && V's decoder accepts doc ==> err == nil && c.V is set to V's decoded value, no other variant set
+//	    ensures d == value(V) && V's decoder rejects doc ==> err != nil
+//	    ensures d in no table entry ==> err != nil
+//	  without discriminator (first success wins):
+//	    ensures err == nil <==> some variant's decoder accepts doc; then the first accepting variant is set to its decoded value
+
+func (jf *JSONFamily) installOneOfUn(f *ssa.Function, jt *jsonType) {
+	vars, problem := jf.oneOfVariants(jt)
+	if problem != "" {
+		return
+	}
+	T := jt.Named
+	c := newFamilyContract(f)
+	c.Options["family"] = "json-unmarshal-oneof"
+	c.PreHook = func(e *FuncEnc, args []string) []NamedFormula {
+		e.needUn()
+		return []NamedFormula{{Name: "fresh-receiver", Props: []string{"C06", "C08"}, Formula: and(not(eq(args[0], "0")), jf.zeroReceiver(e, e.cur, args[0], T))}}
+	}
+	// discriminator table: value -> variant index
+	type entry struct {
+		val string
+		idx int
+	}
+	var table []entry
+	if jt.Schema.DiscKey != "" {
+		for i, v := range vars {
+			name := v.jt.Schema.Component
+			table = append(table, entry{name, i})
+			for val, comp := range jt.Schema.DiscMap {
+				if comp == name {
+					table = append(table, entry{val, i})
+				}
+			}
+		}
+	}
+	spec := func(e *FuncEnc, cptr, bs, err string, post *state) []NamedFormula {
+		e.needUn()
+		d := sx("rawdoc", bs)
+		okk := eq(sx("if_tag", err), "0")
+		st := T.Underlying().(*types.Struct)
+		fieldVal := func(i int) (is, val string) {
+			ft := st.Field(vars[i].field).Type()
+			fv := e.load(post, "("+e.D.FieldAddrFn(T, vars[i].field)+" "+cptr+")", ft)
+			return sx(e.D.FieldSelector(ft, structFieldIndex(ft, "IsSet")), fv), sx(e.D.FieldSelector(ft, structFieldIndex(ft, "Value")), fv)
+		}
+		onlySet := func(i int) string {
+			var cs []string
+			for j := range vars {
+				is, val := fieldVal(j)
+				if j == i {
+					_, vf := e.udecFns(vars[j].jt.Named)
+					cs = append(cs, is, eq(val, sx(vf, d)))
+				} else {
+					cs = append(cs, not(is))
+				}
+			}
+			return and(cs...)
+		}
+		var out []NamedFormula
+		if jt.Schema.DiscKey != "" {
+			e.D.UF("docStrMember", []string{"Doc", "Str"}, "Str")
+			dv := sx("docStrMember", d, e.D.Lit(jt.Schema.DiscKey))
+			isObj := or(sx("docNull", d), eq(sx("docKind", d), "1"))
+			var inTable []string
+			sort.Slice(table, func(a, b int) bool { return table[a].val < table[b].val })
+			for _, t := range table {
+				ef, _ := e.udecFns(vars[t.idx].jt.Named)
+				hit := and(isObj, eq(dv, e.D.Lit(t.val)))
+				inTable = append(inTable, eq(dv, e.D.Lit(t.val)))
+				out = append(out,
+					NamedFormula{Name: "ensures#accepts:" + t.val, Props: []string{"C08"}, Formula: implies(and(hit, not(sx(ef, d))), and(okk, onlySet(t.idx)))},
+					NamedFormula{Name: "ensures#rejects:" + t.val, Props: []string{"C08"}, Formula: implies(and(hit, sx(ef, d)), not(okk))})
+			}
+			out = append(out, NamedFormula{Name: "ensures#unknown-discriminator", Props: []string{"C08"}, Formula: implies(not(or(inTable...)), not(okk))})
+			return out
+		}
+		// first success wins
+		var earlierFail []string
+		var anyOK []string
+		for i, v := range vars {
+			ef, _ := e.udecFns(v.jt.Named)
+			first := and(append([]string{not(sx(ef, d))}, earlierFail...)...)
+			out = append(out, NamedFormula{Name: "ensures#first-accepting:" + v.jt.Named.Obj().Name(), Props: []string{"C08"}, Formula: implies(first, and(okk, onlySet(i)))})
+			earlierFail = append(earlierFail, sx(ef, d))
+			anyOK = append(anyOK, not(sx(ef, d)))
+		}
+		out = append(out, NamedFormula{Name: "ensures#rejects-when-none-accepts", Props: []string{"C08"}, Formula: implies(not(or(anyOK...)), not(okk))})
+		return out
+	}
+	c.RetHook = func(e *FuncEnc, results []string) []NamedFormula {
+		return pruneByReturn(e, spec(e, e.val[f.Params[0]], e.val[f.Params[1]], results[0], e.cur))
+	}
+	c.PostHook = func(e *FuncEnc, args, results []string, pre, post *state) []NamedFormula {
+		fs := spec(e, args[0], args[1], results[0], post)
+		return append(fs, jf.receiverFrame(e, args[0], T, pre, post)...)
+	}
+	c.Modifies = jf.receiverKeys(T, nil)
+	jf.Em.W.Contracts[f.String()] = c
 }
